@@ -337,3 +337,208 @@ class ProcessTaskEvent(Unit):
 
     def clause(self, name):
         return PTE_OBLIGATIONS[name][1]
+
+
+# ================================================================================================
+# process_workflow_event (status requests)
+# ================================================================================================
+WFACTS = ["A", "SG", "PD"]
+
+
+def pwe_links(v):
+    """INV-ST on the pre-state: a resting workflow has no active task (no reporting task here)."""
+    return AND(
+        IMPLIES(IN(v["old"], [st.PAUSED, st.CANCELED, st.SUCCEEDED, st.UNSET, st.REQUESTED,
+                               st.SCHEDULED, st.DELAYED]), NOT(v["A"])),
+        IMPLIES(IN(v["old"], [st.PAUSING, st.CANCELING]), v["A"]),
+        IMPLIES(EQ(v["old"], st.SUCCEEDED), NOT(v["SG"])),
+    )
+
+
+def w02_succeeded_justified(v):
+    return IMPLIES(
+        AND(EQ(v["new"], st.SUCCEEDED), NE(v["old"], st.SUCCEEDED)),
+        OR(AND(EQ(v["old"], st.PAUSED), IN(v["req"], [st.RUNNING, st.RESUMING]),
+               NOT(v["A"]), NOT(v["SG"]), NOT(v["PD"])),
+           # P4: a provider forcing `succeeded` on a running workflow is outside the quantifier
+           AND(EQ(v["req"], st.SUCCEEDED), EQ(v["old"], st.RUNNING))))
+
+
+def w02_paused_canceled_dormant(v):
+    return IMPLIES(AND(IN(v["new"], [st.PAUSED, st.CANCELED]), NE(v["new"], v["old"])), NOT(v["A"]))
+
+
+def w02_ing_active(v):
+    return IMPLIES(AND(IN(v["new"], [st.PAUSING, st.CANCELING]), NOT(v["raised"])), v["A"])
+
+
+def w03_resume_completed(v):
+    finished = AND(NOT(v["A"]), NOT(v["SG"]), NOT(v["PD"]))
+    return IMPLIES(
+        AND(EQ(v["old"], st.PAUSED), IN(v["req"], [st.RUNNING, st.RESUMING])),
+        AND(NOT(v["raised"]),
+            IMPLIES(finished, EQ(v["new"], st.SUCCEEDED)),
+            IMPLIES(NOT(finished), EQ(v["new"], v["req"]))))
+
+
+def w04_terminal_rows(v):
+    return AND(
+        IMPLIES(IN(v["old"], [st.FAILED, st.CANCELED]), EQ(v["new"], v["old"])),
+        IMPLIES(EQ(v["old"], st.SUCCEEDED),
+                OR(EQ(v["new"], st.SUCCEEDED), AND(EQ(v["new"], st.FAILED), EQ(v["req"], st.FAILED)))))
+
+
+def w09_pause_request(v):
+    return IMPLIES(
+        AND(IN(v["old"], [st.RUNNING, st.RESUMING, st.PAUSING]), IN(v["req"], st.PAUSE_STATUSES)),
+        AND(NOT(v["raised"]),
+            IMPLIES(v["A"], EQ(v["new"], st.PAUSING)), IMPLIES(NOT(v["A"]), EQ(v["new"], st.PAUSED))))
+
+
+def w09_resume_request(v):
+    """resume from pausing/paused goes to the requested running status (or completes, C03)"""
+    return IMPLIES(AND(EQ(v["old"], st.PAUSING), IN(v["req"], [st.RUNNING, st.RESUMING])),
+                   AND(NOT(v["raised"]), EQ(v["new"], v["req"])))
+
+
+def w10_cancel_request(v):
+    return IMPLIES(
+        AND(IN(v["old"], [st.RUNNING, st.RESUMING, st.PAUSING, st.PAUSED, st.CANCELING,
+                           st.REQUESTED, st.SCHEDULED, st.DELAYED]),
+            IN(v["req"], st.CANCEL_STATUSES)),
+        AND(NOT(v["raised"]),
+            IMPLIES(v["A"], EQ(v["new"], st.CANCELING)), IMPLIES(NOT(v["A"]), EQ(v["new"], st.CANCELED))))
+
+
+def w10_cancel_sticky(v):
+    return IMPLIES(IN(v["old"], [st.CANCELING, st.CANCELED]),
+                   OR(IN(v["new"], [st.CANCELING, st.CANCELED]),
+                      AND(EQ(v["old"], st.CANCELING), EQ(v["req"], st.FAILED), EQ(v["new"], st.FAILED))))
+
+
+def w02_fail_request(v):
+    """a runtime error (the engine requests failed) always ends in failed unless canceled"""
+    return IMPLIES(AND(EQ(v["req"], st.FAILED), NE(v["old"], st.CANCELED)),
+                   AND(NOT(v["raised"]), EQ(v["new"], st.FAILED)))
+
+
+P4_REQUESTS = [st.REQUESTED, st.SCHEDULED, st.DELAYED, st.RUNNING, st.PAUSING, st.PAUSED, st.RESUMING,
+               st.SUCCEEDED, st.FAILED, st.CANCELING, st.CANCELED]
+
+
+def w02_no_internal_error(v):
+    """requests for a workflow status raise nothing inside the machine (rejection is decided by
+    request_workflow_status); statuses that are not workflow statuses (pending, retrying, timeout,
+    abandoned, null) may be refused with InvalidEvent"""
+    return IMPLIES(IN(v["req"], P4_REQUESTS), NOT(v["raised"]))
+
+
+def w_change_is_requested(v):
+    """a status request never yields a status other than the one the lifecycle prescribes for it"""
+    allowed = {
+        st.PAUSING: [st.PAUSING, st.PAUSED], st.PAUSED: [st.PAUSING, st.PAUSED],
+        st.CANCELING: [st.CANCELING, st.CANCELED], st.CANCELED: [st.CANCELING, st.CANCELED],
+        st.RUNNING: [st.RUNNING, st.SUCCEEDED], st.RESUMING: [st.RESUMING, st.SUCCEEDED],
+    }
+    cl = []
+    for req, outs in allowed.items():
+        cl.append(IMPLIES(AND(EQ(v["req"], req), NE(v["new"], v["old"])), IN(v["new"], outs)))
+    cl.append(IMPLIES(AND(NOTIN(v["req"], list(allowed)), NE(v["new"], v["old"])), EQ(v["new"], v["req"])))
+    return AND(*cl)
+
+
+PWE_OBLIGATIONS = {
+    "C02.pwe.succeeded_justified": (["C02", "C03"], w02_succeeded_justified,
+        "a status request yields succeeded only as completion-on-resume of a finished paused workflow"),
+    "C02.pwe.paused_canceled_dormant": (["C02", "C09", "C10"], w02_paused_canceled_dormant,
+        "a request yields paused/canceled only with no active task"),
+    "C02.pwe.ing_active": (["C02", "C09", "C10"], w02_ing_active,
+        "after a request, pausing/canceling implies an active task"),
+    "C02.pwe.fail_request": (["C02", "C11"], w02_fail_request,
+        "an engine request for failed always ends failed unless the workflow is canceled"),
+    "C02.pwe.no_internal_error": (["C02", "C15"], w02_no_internal_error,
+        "process_workflow_event raises nothing for any valid status request"),
+    "C02.pwe.change_is_requested": (["C02", "C04"], w_change_is_requested,
+        "a request changes the status only to the requested status or its lifecycle-prescribed variant"),
+    "C03.pwe.resume_completed": (["C03", "C09"], w03_resume_completed,
+        "resume of a finished paused workflow completes it; otherwise the requested running status"),
+    "C04.pwe.terminal_rows": (["C04"], w04_terminal_rows,
+        "failed/canceled are final; succeeded changes only to failed on an explicit failed request"),
+    "C09.pwe.pause_request": (["C09"], w09_pause_request,
+        "pause request: pausing while active, paused when dormant"),
+    "C09.pwe.resume_request": (["C09"], w09_resume_request,
+        "resume request from pausing is accepted"),
+    "C10.pwe.cancel_request": (["C10"], w10_cancel_request,
+        "cancel request from any non-terminal status: canceling while active, canceled when dormant"),
+    "C10.pwe.cancel_sticky": (["C10"], w10_cancel_sticky,
+        "no request moves a canceling/canceled workflow anywhere but canceling/canceled (failed only by an explicit engine failure while canceling)"),
+}
+
+
+class ProcessWorkflowEvent(Unit):
+    name = "M.process_workflow_event"
+    functions = [
+        "orquesta.machines.WorkflowStateMachine.process_workflow_event",
+        "orquesta.machines.WorkflowStateMachine.add_context_to_workflow_event",
+        "orquesta.events.WorkflowExecutionEvent.__init__",
+    ]
+    obligations = {k: {"props": p, "text": t} for k, (p, _, t) in PWE_OBLIGATIONS.items()}
+    assumptions = [
+        "workflow-state facts A, SG, PD symbolic (definitions proved in layer S)",
+        "pre-state INV-ST: resting/unstarted workflow has no active task; pausing/canceling has one",
+        "P4: requested statuses are valid statuses; a provider forcing succeeded is outside the properties' quantifiers",
+    ]
+    trusted = ["z3 5.1", "pyvc interpreter (cross-checked against CPython on every path in this unit)"]
+
+    def splits(self, tier):
+        return [(o, r) for o in wf_statuses() for r in st.ALL_STATUSES]
+
+    def run_split(self, ctx, split):
+        old_c, req_c = split
+        first = [True]
+
+        def thunk(e):
+            old = e.register_input("old", old_c)
+            req = e.register_input("req", req_c)
+            F = {k: e.register_input(k, S.mk_bool(k)) for k in WFACTS}
+            v = {"old": old, "req": req}
+            v.update(F)
+            e.assume(pwe_links(v))
+            ws = AbstractObj("workflow_state", status=old, has_active_tasks=F["A"],
+                             has_staged_tasks=F["SG"], has_paused_tasks=F["PD"])
+            event = e.call(events.WorkflowExecutionEvent, [req], {})
+            raised = None
+            try:
+                e.call(machines.WorkflowStateMachine.process_workflow_event, [ws, event], {})
+            except Raised as r:
+                raised = r
+            v["new"] = ws._attrs["status"]
+            v["raised"] = raised is not None
+            if first[0]:
+                ctx.canary()
+                first[0] = False
+            for name, (props, fn, text) in PWE_OBLIGATIONS.items():
+                ctx.oblige(name, fn(v), v, info={"old": old_c, "req": req_c})
+            ctx.crosscheck({"new": v["new"], "raised": raised.cls.__name__ if raised else None},
+                           rate=1.0 if ctx.tier == "thorough" else 0.5)
+
+        ctx.eng.explore(thunk)
+
+    def native(self, inputs):
+        class WS(object):
+            pass
+        ws = WS()
+        ws.status = inputs["old"]
+        ws.has_active_tasks = inputs["A"]
+        ws.has_staged_tasks = inputs["SG"]
+        ws.has_paused_tasks = inputs["PD"]
+        raised = None
+        try:
+            machines.WorkflowStateMachine.process_workflow_event(
+                ws, events.WorkflowExecutionEvent(inputs["req"]))
+        except Exception as e:
+            raised = type(e).__name__
+        return {"new": ws.status, "raised": raised}
+
+    def clause(self, name):
+        return PWE_OBLIGATIONS[name][1]
